@@ -124,11 +124,18 @@ fn check_stream(k: u32) -> Result<u64, String> {
     let c = enc.verif_intermediate_symbols();
     let total = (1u32 << 24) - k;
     let chunks: Vec<u32> = (0..total.div_ceil(65536)).collect();
-    let err: std::sync::Mutex<Option<String>> = std::sync::Mutex::new(None);
+    // (smallest failing position, message): deterministic whatever the thread schedule
+    let err: std::sync::Mutex<Option<(u32, String)>> = std::sync::Mutex::new(None);
+    let set_err = |pos: u32, m: String| {
+        let mut e = err.lock().unwrap();
+        if e.as_ref().map(|x| pos < x.0).unwrap_or(true) {
+            *e = Some((pos, m));
+        }
+    };
     par_for(chunks.len(), |ci| {
         let s = chunks[ci] * 65536;
         let cnt = 65536.min(total - s);
-        if err.lock().unwrap().is_some() {
+        if err.lock().unwrap().as_ref().map(|x| x.0 < s).unwrap_or(false) {
             return;
         }
         let r = guarded(|| {
@@ -144,16 +151,16 @@ fn check_stream(k: u32) -> Result<u64, String> {
             (w, w2)
         });
         match r {
-            Err(e) => *err.lock().unwrap() = Some(format!("K={}: stream chunk {} panicked: {}", k, s, e)),
+            Err(e) => set_err(s, format!("K={}: stream chunk {} panicked: {}", k, s, e)),
             Ok((w, w2)) => {
                 if w != w2 {
-                    *err.lock().unwrap() = Some(format!("K={}: tilings of repair range {}..{} by 65536 and by 4099 disagree", k, s, s + cnt));
+                    set_err(s, format!("K={}: tilings of repair range {}..{} by 65536 and by 4099 disagree", k, s, s + cnt));
                     return;
                 }
                 for (i, x) in w.iter().enumerate() {
                     let esi = k + s + i as u32;
                     if x.payload_id().encoding_symbol_id() != esi || x.data() != &ref_symbol(&p, k, &c, esi)[..] {
-                        *err.lock().unwrap() = Some(format!("K={}: stream packet ESI {} differs from the per-ESI reference", k, esi));
+                        set_err(s + i as u32, format!("K={}: stream packet ESI {} differs from the per-ESI reference", k, esi));
                         return;
                     }
                 }
@@ -161,7 +168,7 @@ fn check_stream(k: u32) -> Result<u64, String> {
         }
     });
     if let Some(e) = err.into_inner().unwrap() {
-        return Err(e);
+        return Err(e.1);
     }
     Ok(total as u64)
 }
